@@ -9,7 +9,43 @@ from qv import env
 
 env.setup_path()
 ALL = [f"C{i:02d}" for i in range(1, 21)]
+TECH = {
+    "C01": "runtime monitoring: observables sampled from real simulations of solvable systems, 16 independent chains, z-test against analytic values with one re-measurement",
+    "C02": "runtime contract around every criteria.evaluate: RNG-shadow predicts the uniform draw, oracle recomputes log A from the statement's formulas",
+    "C03": "trial tracer over the stepping generator + bitwise snapshot oracle for rejected/failed trials, forced histories (scripted criteria, vetoes, pre-selections)",
+    "C04": "trial tracer + independent from-scratch energy oracle, result-tagging / per-atom-state calculators, evaluation counters",
+    "C05": "trial tracer + shadow particle ledger (hidden per-atom uid array) compared with every label array and the recorded particle number",
+    "C06": "digest streams of twin runs (global generators perturbed, fresh interpreter) + global-RNG tripwires",
+    "C07": "recorded restart documents of a reference run resumed in a fresh interpreter; digest streams compared step by step",
+    "C08": "introspective discovery + to_dict/JSON/registry/from_dict round trips in fresh interpreters, one per public module imported first",
+    "C09": "per-step predicates on the yielded move names of seeded tables + pooled binomial / chi-square tests with re-measurement",
+    "C10": "runtime contracts around every operation's calculate (geometry, RNG-shadow replay of composites) + symmetry/uniformity statistics with re-measurement",
+    "C11": "runtime contracts around (composite) displacement move calls comparing positions row by row with the label array and the recorded operation result",
+    "C12": "trial tracer / per-step monitor of fixed atoms and centre of mass; contract on FixRot.adjust_momenta",
+    "C13": "runtime contract around ForceBias.step (bound, single advance, round watchdog) + KS test against the closed-form Bal-Neyts CDF",
+    "C14": "direct drive of the real integrator (forward-flip-forward, dt-halving), normality tests of the refresh, contract on the criteria's kinetic energy",
+    "C15": "recording observers + step counter over all compositions of n steps into run/srun/irun calls, compared with a single run",
+    "C16": "operation-logging file objects replayed into a file model at every cut point (two durability models) + real process kills at sys.monitoring line events",
+    "C17": "exhaustive bounded enumeration of + / * expression trees judged by a reference evaluator (element identity, exact type), probe-move call logs",
+    "C18": "runtime contract around AdaptiveForceBias.update_delta with prescribed committee data / prescribed-variation schemes",
+    "C19": "runtime contracts around reinsert_atoms (bitwise restore) and search_molecules (independent union-find partition oracle)",
+    "C20": "attribute-access-logging bare protocol objects in every driver + notification / routing / serialization oracles",
+}
 NOT_APPLICABLE: dict[str, str] = {}
+
+
+def level_text(mod) -> str:
+    doc = " ".join((mod.__doc__ or "").split())
+    level = getattr(mod, "LEVEL", "exploration")
+    tail = (
+        " Assurance: the property held (or the listed known findings occurred) on every execution the seeded workloads produced and the monitors observed; the evidence file "
+        "reports how many executions, which distinct cases and which monitor counters. Nothing is claimed for executions that were not produced. "
+    )
+    if level == "fault_enumeration":
+        tail += "Level fault_enumeration: every cut point of each recorded operation log is enumerated (exhaustive within the recorded runs); the runs themselves are sampled."
+    else:
+        tail += "Level exploration: the statement quantifies over all inputs / histories, which runtime monitoring can only sample; reach comes from hostile generators, forced histories and volume."
+    return doc + tail
 
 
 def main() -> None:
@@ -30,11 +66,11 @@ def main() -> None:
                 "engine": "qv",
                 "level_claimed": {
                     "category": getattr(mod, "LEVEL", "exploration"),
-                    "text": getattr(mod, "LEVEL_TEXT", (mod.__doc__ or "").strip().split("\n\n")[0]),
+                    "text": level_text(mod),
                     "design_ref": f"DESIGN.md section 3, {pid}",
                 },
                 "level_note": getattr(mod, "LEVEL_NOTE", "; ".join(getattr(mod, "ASSUMPTIONS", [])) or "ASE/numpy/scipy as installed; harness oracles"),
-                "technique": getattr(mod, "TECHNIQUE", "runtime monitoring: oracle over observed executions of the real code"),
+                "technique": TECH.get(pid, "runtime monitoring: oracle over observed executions of the real code"),
             }
         )
     manifest = {
